@@ -145,10 +145,11 @@ INLINE = [
     ("link", "[text](http://e.com/a_b \"Title... 'q'\")"), ("link_paren", "[t](http://e.com/a_(b))"), ("link_angle", "[t](<url with spaces> \"t\")"),
     ("image", "![img alt](x.png \"ti...\")"), ("ref", "[ref text][lab]"), ("fnref", "note[^fn]"), ("link_empty_title", "[t](u)"),
     ("code_in_link", "[`c`](http://x.y)"), ("escaped", "\\*not emph\\* \\\"q\\\""),
+    ("link_text_is_label", "[lab](http://other.example/x \"O\")"), ("ref_text_is_label", "[lab][lab2]"),
     ("code_bt_start", "`` `tick ``"), ("code_bt_end", "`` tick` ``"), ("code_bt_both_sp", "``  `a`  ``"),
     ("www", "www.example.com/a_b?c=d"), ("email", "<joe.q@example.com>"), ("mailto", "<mailto:joe@example.com>"), ("link_escparen", "[t](http://e.com/a\\)b \"say \\\"hi\\\"\")"),
 ]
-DEFS = "\n\n[lab]: http://ref.example.com/a_b \"Ref 'title'...\"\n\n[^fn]: The footnote text.\n"
+DEFS = "\n\n[lab]: http://ref.example.com/a_b \"Ref 'title'...\"\n[lab2]: http://second.example.com/\n\n[^fn]: The footnote text.\n"
 WORDS = ["alpha", "beta", "gamma", "delta", "epsilon", "zeta"]
 
 
